@@ -18,11 +18,14 @@ pub mod c09;
 pub mod c09wire;
 pub mod c10;
 pub mod c11;
+pub mod c12;
 pub mod c13;
 pub mod c14;
 pub mod c15;
 pub mod c16;
+pub mod c17;
 pub mod c18;
+pub mod c19;
 pub mod c20;
 
 #[derive(Clone, Copy)]
@@ -94,17 +97,20 @@ pub fn get(id: &str, tier: Tier) -> Option<Check> {
         "C09" => c09::check(tier),
         "C10" => c10::check(tier),
         "C11" => c11::check(tier),
+        "C12" => c12::check(tier),
         "C13" => c13::check(tier),
         "C14" => c14::check(tier),
         "C15" => c15::check(tier),
         "C16" => c16::check(tier),
+        "C17" => c17::check(tier),
         "C18" => c18::check(tier),
+        "C19" => c19::check(tier),
         "C20" => c20::check(tier),
         _ => return None,
     })
 }
 
-pub const ALL: &[&str] = &["C02", "C03", "C04", "C05", "C06", "C07", "C08", "C09", "C10", "C11", "C13", "C14", "C15", "C16", "C18", "C20"];
+pub const ALL: &[&str] = &["C02", "C03", "C04", "C05", "C06", "C07", "C08", "C09", "C10", "C11", "C12", "C13", "C14", "C15", "C16", "C17", "C18", "C19", "C20"];
 
 /// Stream-local seed for scenario `idx`.
 pub fn sseed(ctx: &Ctx, stream: &str, idx: u64) -> u64 {
